@@ -148,12 +148,17 @@ def make_history(rng, sched, cancel):
 
 CORPUS = [
     # same-engine staleness after cancellation (fixed d025783): R=3 requests A=0 then B=1; B changes; cancel after A was re-provided
-    ("same-engine", ["db 0", "rule 0 sig=0 obs=1", "rule 1 sig=0 obs=1", "rule 3 sig=1 obs=0 req=0,1", "set 0 1", "set 1 1", "build 3", "set 1 2"],
-     ["set 1 2", "build 3"], "3"),
+    ("same-engine", ["db 0", "rule 0 sig=0 obs=1", "rule 1 sig=0 obs=1", "rule 4 sig=1 obs=0 req=0,1", "set 0 1", "set 1 1", "build 4", "set 1 2"],
+     ["set 1 2", "build 4"], "4"),
+    # the same with the second input requested dynamically once the first arrived (the partial dependency list [A] is what made it stale)
+    ("same-engine-dyn", ["db 0", "rule 0 sig=0 obs=1", "rule 1 sig=0 obs=1", "rule 4 sig=1 obs=0 req=0 br=0:1:1", "set 0 1", "set 1 1", "build 4", "set 1 2"],
+     ["build 4", "set 1 3", "build 4"], "4"),
+    ("same-engine-dyn-db", ["db 1", "rule 0 sig=0 obs=1", "rule 1 sig=0 obs=1", "rule 2 sig=0 obs=1", "rule 4 sig=1 obs=0 req=0 br=0:1,2:2,1", "rule 5 sig=0 obs=0 req=4", "set 0 1", "set 1 1", "set 2 1", "build 5", "set 2 2"],
+     ["build 5", "set 1 3", "build 4"], "5"),
     # discovered-dependency window (known finding): R=3 requests A=0, discovers D=1; both change; cancel right after R completed;
     # D returns to its earlier stamp
-    ("disc-window", ["db 1", "rule 0 sig=0 obs=1", "rule 1 sig=0 obs=1", "rule 3 sig=1 obs=0 req=0 disc=1", "set 0 1", "set 1 1", "build 3", "set 0 2", "set 1 2"],
-     ["set 1 1", "build 3", "restart", "build 3"], "3"),
+    ("disc-window", ["db 1", "rule 0 sig=0 obs=1", "rule 1 sig=0 obs=1", "rule 4 sig=1 obs=0 req=0 disc=1", "set 0 1", "set 1 1", "build 4", "set 0 2", "set 1 2"],
+     ["set 1 1", "build 4", "restart", "build 4"], "4"),
 ]
 
 
